@@ -16,27 +16,62 @@ Open Scope Z_scope.
 
 Module Old := Opcua.Model.ChannelSchedBeforeFix.
 
-Definition wire_ok (s : st) : Prop :=
-  consecutive_rev (wire_rev s) = true /\ contiguous_rev (wire_rev s) = true.
+(* the chunks on the connection, newest first (the model's send log without its GAP entries) *)
+Definition on_wire (s : st) : list chunk := wire_rev_visible s.
 
-(* FULL: every interleaving of any number of senders (any message sizes) and any number of renewals, succeeding or
-   failing: every chunk carries the successor of the number of the chunk written before it, and a chunk that follows
-   a non-final chunk belongs to the same message *)
-Theorem C11_sequence_numbers_consecutive_and_messages_contiguous :
-  forall seq0 req0 s, reachable seq0 req0 s -> wire_ok s.
-Proof. intros; eapply wire_ok_full; eassumption. Qed.
+(* the full statement *)
+Definition C11_statement : Prop := forall seq0 req0 s, reachable seq0 req0 s ->
+  consecutive_rev (on_wire s) = true /\ contiguous_rev (on_wire s) = true.
 
-(* the statement is not vacuous: a renewal under load, with the counter wrapping.  Sender 0 (3 chunks) is counted
-   before the renewal locks the gate, so the renewal waits for it; sender 1 is held at the gate and uses the new
-   instance; a second renewal fails after its OPN and hands the counter back *)
-Example C11_nonvacuous : exists s,
-  reachable 4294966270 7 s /\ renewals s = 1%nat /\
-  map (fun x => fst (fst (fst x))) (wire_obs s) = [4294966271; 4294966272; 1; 2; 3; 4; 5; 6].
+(* FULL, second half: under EVERY interleaving of any number of senders (any message sizes, sends failing at any point)
+   and any number of renewals (succeeding or failing) every chunk either continues the message of the chunk written
+   just before it or starts a message of which nothing was written before: chunks of two messages never interleave *)
+Theorem C11_messages_never_interleaved : forall seq0 req0 s, reachable seq0 req0 s -> contiguous_rev (on_wire s) = true.
+Proof. intros; eapply wire_contiguous_full; eassumption. Qed.
+
+(* FULL, first half up to used-up numbers: under every interleaving the sequence counter never repeats or skips:
+   the send log -- the chunks plus one GAP entry for every request that failed after taking its first number but
+   before writing anything -- carries consecutive numbers *)
+Theorem C11_counter_never_repeats_or_skips : forall seq0 req0 s, reachable seq0 req0 s -> consecutive_rev (wire_rev s) = true.
+Proof. intros; eapply log_consecutive_full; eassumption. Qed.
+
+(* REFUTED: a request that fails before its first chunk is written (context already done, encoding or size-limit
+   error, first sign/write error) has taken a number in newRequestMessage that never reaches the wire: a gap *)
+Definition early_failure_schedule : list ev :=
+  [ESpawn 0; EGate 0; EActive 0; EId 0; ELockI 0; EChunk 0; EUnlockI 0; EDone 0;
+   ESpawn 0; EGate 1; EActive 1; EId 1; ELockI 1; EFail 1; EUnlockI 1; EDone 1;
+   ESpawn 0; EGate 2; EActive 2; EId 2; ELockI 2; EChunk 2]%nat.
+
+Theorem C11_refuted_early_failure_gap : exists s,
+  reachable 1 1 s /\ consecutive_rev (on_wire s) = false /\ wire_obs s = [(2, 2, true, false); (4, 4, true, false)].
+Proof. eexists. split; [exists early_failure_schedule; vm_compute; reflexivity|]. split; vm_compute; reflexivity. Qed.
+
+Theorem C11_refuted : ~ C11_statement.
+Proof.
+  intro H. destruct C11_refuted_early_failure_gap as (s & R & C & _). destruct (H 1 1 s R) as [X _]. congruence.
+Qed.
+
+(* PARTIAL: on every run on which no send fails before its first chunk (sends may still fail between chunks, renewals
+   may fail, any number of threads, every interleaving) the chunks on the wire carry consecutive numbers *)
+Theorem C11_partial_consecutive : forall seq0 req0 s,
+  reachableP no_early_fail seq0 req0 s -> consecutive_rev (on_wire s) = true /\ contiguous_rev (on_wire s) = true.
+Proof.
+  intros seq0 req0 s R. split; [eapply wire_consecutive_partial; exact R|].
+  apply contig_filter. exact (K1 _ (reachable_inv3 _ _ _ _ R)).
+Qed.
+
+(* the hypothesis is satisfiable: a renewal under load with the counter wrapping.  Sender 0 (3 chunks) is counted
+   before the renewal locks the gate, so the renewal waits for it; sender 1 is held at the gate, uses the new
+   instance and FAILS after its first chunk; a second renewal fails after its OPN and hands the counter back *)
+Example C11_partial_nonvacuous : exists s,
+  reachableP no_early_fail 4294966270 7 s /\ renewals s = 1%nat /\
+  wire_obs s = [(4294966271, 8, false, false); (4294966272, 8, false, false); (1, 8, true, false); (2, 9, true, true);
+                (3, 10, false, false); (4, 11, true, true); (5, 12, true, false)].
 Proof.
   eexists. split.
   - exists [ESpawn 2; ESpawn 1; EGate 0; ERenStart; ERenGate; EActive 0; EId 0; ELockI 0; EChunk 0; EChunk 0; EChunk 0;
             EUnlockI 0; EDone 0; ERenDrain; ERenLock; ERenCopy; ERenOpn; ERenInstall; ERenUnlock;
-            EGate 1; EActive 1; EId 1; ELockI 1; EChunk 1; EChunk 1; EUnlockI 1; EDone 1;
+            EGate 1; EActive 1; EId 1; ELockI 1; EChunk 1; EFail 1; EUnlockI 1; EDone 1;
             ERenStart; ERenGate; ERenDrain; ERenLock; ERenCopy; ERenOpn; ERenFail; ERenUnlock;
             ESpawn 0; EGate 2; EActive 2; EId 2; ELockI 2; EChunk 2]%nat.
     vm_compute. reflexivity.
@@ -109,7 +144,7 @@ Proof. exact next_seq_formula. Qed.
 Theorem C11_tie_source_shape :
   src_sync_renew = ["s.reqLocker.lock()"; "s.reqLocker.unlock()"; "s.pendingReq.Wait()"; "instance.Lock()"; "instance.Unlock()";
                     "s.open(context.Background(), instance, ua.SecurityTokenRequestTypeRenew)"]%string /\
-  src_sync_SendRequestWithTimeout = ["s.reqLocker.waitIfLockThen(func() { s.pendingReq.Add(1) })"; "s.pendingReq.Add(1)";
+  src_sync_SendRequestWithTimeout = ["s.reqLocker.waitIfLockThen(func() { verifhook.Point(""sc.req.gateOpen""); s.pendingReq.Add(1) })"; "s.pendingReq.Add(1)";
      "s.getActiveChannelInstance()"; "s.pendingReq.Done()";
      "s.sendRequestWithTimeout(ctx, req, s.nextRequestID(), active, authToken, timeout, h)"; "s.nextRequestID()"]%string /\
   src_sync_waitIfLockThen = ["c.lockMu.Lock()"; "c.lockCnd.Wait()"; "f()"; "c.lockMu.Unlock()"]%string /\
@@ -121,7 +156,11 @@ Theorem C11_tie_source_shape :
   src_open_copies_sequence_number = true /\ src_open_hands_sequence_number_back = true.
 Proof. repeat split; reflexivity. Qed.
 
-Print Assumptions C11_sequence_numbers_consecutive_and_messages_contiguous.
+Print Assumptions C11_messages_never_interleaved.
+Print Assumptions C11_counter_never_repeats_or_skips.
+Print Assumptions C11_refuted_early_failure_gap.
+Print Assumptions C11_refuted.
+Print Assumptions C11_partial_consecutive.
 Print Assumptions C11_renewal_waits_for_counted_senders.
 Print Assumptions C11_refuted_before_fix_renewal_window.
 Print Assumptions C11_refuted_before_fix_interleaved_messages.
